@@ -138,6 +138,13 @@ func runJoinProperty(c *Ctx, id string) {
 			checkJ8(c, jr)
 			joinHandOver(c, jr, "J9")
 		}
+		r.Doc("J13", "constructors refuse a configuration only on a missing / out-of-range test", 9)
+		for _, jr := range jrs {
+			checkCtorRefusals(c, jr.p, jr.d, "J13")
+		}
+		r.Doc("J12", "error tests of the constructors are not inverted (valid options give a running discipline, a failed validation is reported)", 6)
+		checkErrorTests(c, c.V1, "J12", c.V1.errorFuncs("join"))
+		checkErrorTests(c, c.V2, "J12", c.V2.errorFuncs("join", "join/unite"))
 	case "C11":
 		r.MinCount["J0"] = 1
 		r.Doc("J2", "every ingest appends the whole received slice, every forward sends the whole slice", 2)
